@@ -38,6 +38,17 @@ function literalWorkload() {
   }
   for (const m of ['1', '0', '9.5', '.5', '5.', '123']) for (const sgn of ['e', 'e-']) for (const ex of ['0', '1', '5', '21', '308', '309', '400', '999'])
     out.push(m + sgn + ex)
+  // rounding boundaries of the f64 reading: integers of L significant bits that sit on, just above and just
+  // below a round-half-even tie (even and odd lower neighbour), the deciding bit directly below the tie
+  // or at bit 0, in every radix the grammar accepts
+  const spell = (v) => { out.push('0x' + v.toString(16)); out.push('0' + v.toString(8)); out.push(v.toString(10)) }
+  for (let L = 54; L <= 132; L += L < 72 ? 1 : 7) {
+    const top = 1n << BigInt(L - 1), half = 1n << BigInt(L - 54), ulp = half << 1n
+    for (const base of [top, top + ulp, top + (ulp << 3n) + ulp, (top << 1n) - (ulp << 1n), (top << 1n) - ulp]) {
+      const tie = base + half
+      for (const v of [tie, tie + 1n, tie - 1n, tie + (half >> 1n), tie - (half >> 1n), base + 1n]) if (v > 0n) spell(v)
+    }
+  }
   const seen = new Set()
   return out.filter((s) => s !== '' && s !== '.' && !seen.has(s) && seen.add(s))
 }
